@@ -194,16 +194,40 @@ def nav(ctx):
                  oracle='property statement')
     fn = repo.func(M + 'MetaClass.navigate')
     Q = M + 'MetaClass.navigate'
-    body = body_without_doc(fn)
-    ok = pm.match(['_K = (kind.upper(), rel_id, phrase)',
-                   'if _K in self.links:\n    _L = self.links[_K]\n    return _L.navigate(inst)',
-                   '_L1, _L2 = self._find_assoc_links(kind, rel_id, phrase)',
-                   '_S = xtuml.OrderedSet()',
-                   'for inst in _L1.navigate(inst):\n    _S |= _L2.navigate(inst)',
-                   'return _S'], body) is not None
-    r.check(ok, 'direct link result, else ordered duplicate-free union over the association class instances', fn, construct=Q, key='navigate',
-            msg='MetaClass.navigate is no longer: key lookup in self.links -> link.navigate(inst); otherwise union (OrderedSet |=) of '
-                'link2.navigate over link1.navigate(inst)')
+    INST, KIND, REL, PHR = param_names(fn)[:4]
+    KEY = '(%s.upper(), %s, %s)' % (KIND, REL, PHR)
+
+    def direct(e, s, tr):
+        return s['direct'] if pm.match(KEY, e['_K']) is not None else None
+
+    def assoc_elems(e, s, tr):
+        if pm.match('self._find_assoc_links(%s, %s, %s)[0]' % (KIND, REL, PHR), e['_L']) is not None and src(e['_I']) == INST:
+            return [absint.Sym(ast.Name(id='A1', ctx=ast.Load())), absint.Sym(ast.Name(id='A2', ctx=ast.Load()))]
+        return None
+
+    def new_set(e, s, tr):
+        s['acc'] = e['_S'].id
+        return True
+
+    def union(e, s, tr):
+        if isinstance(e['_S'], ast.Name) and e['_S'].id == s.get('acc'):
+            tr.append(('union', src(e['_V'])))
+            return True
+        return False
+    it = absint.Interp(fn, [('_K in self.links', direct), ('_K not in self.links', lambda e, s, tr: (None if direct(e, s, tr) is None else not direct(e, s, tr)))],
+                       [('_S = xtuml.OrderedSet()', new_set), ('_S = OrderedSet()', new_set), ('_S |= _V', union)],
+                       iters=[('_L.navigate(_I)', assoc_elems)])
+    it.pure_calls = {'_find_assoc_links', 'navigate'}
+    out, tr = it.run({'direct': True})
+    ok1 = out.kind == 'return' and out.value is not None and pm.match('self.links[%s].navigate(%s)' % (KEY, INST), out.value) is not None
+    st2 = {'direct': False}
+    out2, tr2 = it.run(st2)
+    hop2 = 'self._find_assoc_links(%s, %s, %s)[1].navigate(%%s)' % (KIND, REL, PHR)
+    ok2 = out2.kind == 'return' and isinstance(out2.value, ast.Name) and out2.value.id == st2.get('acc') and \
+        [t[1] for t in tr2 if t[0] == 'union'] == [src(ast.parse(hop2 % 'A1').body[0].value), src(ast.parse(hop2 % 'A2').body[0].value)]
+    r.check(ok1 and ok2, 'direct link result, else ordered duplicate-free union over the association class instances', fn, construct=Q, key='navigate',
+            msg='MetaClass.navigate is no longer: key lookup in self.links -> link.navigate(inst) (got %r); otherwise union (OrderedSet |=) of '
+                'link2.navigate over link1.navigate(inst) (got %s, result %r)' % (out, tr2, out2))
     fa = repo.func(M + 'MetaClass._find_assoc_links')
     skip_tests = [n for n in ast.walk(fa) if isinstance(n, ast.If) and len(n.body) == 1 and isinstance(n.body[0], ast.Continue)]
     conds = set()
@@ -218,13 +242,29 @@ def nav(ctx):
     r.check(raises and all(exception_class_name(x) == 'UnknownLinkException' for x in raises), 'an unknown link is reported as UnknownLinkException', fa,
             construct=M + 'MetaClass._find_assoc_links', key='raise', msg='_find_assoc_links does not raise UnknownLinkException')
     nv = repo.func(M + 'NavChain._nav')
-    ok = any(isinstance(n, ast.For) and src(n.iter) in ('iter(handle)', 'handle') and
-             any(isinstance(m, ast.For) and src(m.iter) == 'metaclass.navigate(inst, kind, rel_id, phrase)' and
-                 pm.match(['yield %s' % m.target.id], m.body) is not None for m in n.body) for n in ast.walk(nv))
-    r.check(ok, 'a step yields the navigation results of every handle instance in order', nv, construct=M + 'NavChain._nav', key='step',
-            msg='NavChain._nav does not yield metaclass.navigate(inst, kind, rel_id, phrase) for every instance of the handle in order')
-    r.check(pm.contains("if isinstance(rel_id, int):\n    rel_id = 'R%d' % rel_id", nv), 'integer association numbers are normalised', nv,
-            construct=M + 'NavChain._nav', key='relid', msg="NavChain._nav does not normalise an int rel_id to 'R<n>'")
+    H, K2, R2, P2 = param_names(nv, skip_self=False)[-4:]
+
+    def handle_elems(e, s, tr):
+        return [absint.Sym(ast.Name(id='I1', ctx=ast.Load())), absint.Sym(ast.Name(id='I2', ctx=ast.Load()))]
+
+    def nav_elems(e, s, tr):
+        tr.append(('nav', src(e['_M']), src(e['_I']), src(e['_K']), src(e['_R']), src(e['_P'])))
+        return [absint.Sym(ast.Name(id='RES_' + src(e['_I']), ctx=ast.Load()))]
+    for isint in (True, False):
+        it = absint.Interp(nv, [('isinstance(%s, int)' % R2, lambda e, s, tr: s['int'])],
+                           [('yield _X', lambda e, s, tr: tr.append(('yield', src(e['_X']))))],
+                           iters=[(H, handle_elems), ('iter(%s)' % H, handle_elems),
+                                  ('_M.navigate(_I, _K, _R, _P)', nav_elems), ('_M.navigate(_I, _K, _R, phrase=_P)', nav_elems)])
+        it.pure_calls = {'get_metaclass'}
+        out, tr = it.run({'int': isint})
+        rid = "'R%%d' %% %s" % R2 if isint else R2
+        want = []
+        for i in ('I1', 'I2'):
+            want += [('nav', 'get_metaclass(%s)' % i, i, K2, rid, P2), ('yield', 'RES_' + i)]
+        r.check(tr == want, 'a step yields the navigation results of every handle instance in order (%s association number)' % ('integer' if isint else 'named'),
+                nv, construct=M + 'NavChain._nav', key='step' if not isint else 'relid',
+                msg="NavChain._nav must yield get_metaclass(inst).navigate(inst, kind, <'R<n>' for an int rel_id>, phrase) for every instance of the handle "
+                    'in order; it does %s' % tr)
     gi = repo.func(M + 'NavChain.__getitem__')
     ok = pm.match(["if not isinstance(args, tuple):\n    args = (args, '')", 'relid, phrase = args', 'return self.nav(self._kind, relid, phrase)'],
                   body_without_doc(gi)) is not None
